@@ -303,7 +303,7 @@ var c07Profile = &sim.Profile{
 func init() {
 	register(&Check{
 		ID: "C07", Level: "exploration",
-		Rule: "histories of issue/use/replay/theft/logout/password-reset over accounts whose identifiers come from a hostile corpus (';', ';;', NUL, non-ASCII, 320 bytes, trailing ';') and over OAuth2 accounts (identifiers the library builds itself); cookie values presented: live, spent, revoked, stolen onto another browser, net/http-invisible, not base64, no separator, separator first/last, right PID + zero nonce, another account's nonce under this PID, truncated/extended live cookies, 8 KB. Ledger: every rm value seen in a Set-Cookie with the account the server's token table attributes it to, spent/revoked marks. Oracle per request: live cookie from a uid-less browser => put(uid=that account), halfauth, a fresh value, same number of token rows, and no admission to a full-auth route; any other value => no session and the cookie deleted (when the response wrote client state); logged-in browsers are left alone; no rm value is issued unless rm=true was submitted (or rotation); full logins clear halfauth. distinct_nontrivial = distinct (action, cookie state, PID class, session state, uid outcome, #values issued, deleted) signatures.",
+		Rule:  "histories of issue/use/replay/theft/logout/password-reset over accounts whose identifiers come from a hostile corpus (';', ';;', NUL, non-ASCII, 320 bytes, trailing ';') and over OAuth2 accounts (identifiers the library builds itself); cookie values presented: live, spent, revoked, stolen onto another browser, net/http-invisible, not base64, no separator, separator first/last, right PID + zero nonce, another account's nonce under this PID, truncated/extended live cookies, 8 KB. Ledger: every rm value seen in a Set-Cookie with the account the server's token table attributes it to, spent/revoked marks. Oracle per request: live cookie from a uid-less browser => put(uid=that account), halfauth, a fresh value, same number of token rows, and no admission to a full-auth route; any other value => no session and the cookie deleted (when the response wrote client state); logged-in browsers are left alone; no rm value is issued unless rm=true was submitted (or rotation); full logins clear halfauth. distinct_nontrivial = distinct (action, cookie state, PID class, session state, uid outcome, #values issued, deleted) signatures.",
 		Units: func(t string) int { return tierN(t, 800, 40000) },
 		Run: func(c *RunCtx, unit int) {
 			r := Rng(c.Seed, "C07", unit)
